@@ -271,9 +271,11 @@ func (c *calc) itemPrice(s docgen.SubLine, rates []docgen.Rate) (Dec, error) {
 	}
 	for _, r := range rates {
 		if r.From == s.ItemCurrency && r.To == c.env.Currency {
-			// the amount is raised to the destination currency's precision before multiplying
-			conv := c.mul(c.tv(up(price, c.env.C)), mustDec(r.Amount))
-			return c.rescale(conv.D, c.env.C), nil
+			// price x rate, rounded once to the destination currency's decimals
+			// (the converted price is a presented figure)
+			rate := mustDec(r.Amount)
+			prod := Dec{Units: new(big.Int).Mul(price.Units, rate.Units), Exp: price.Exp + rate.Exp}
+			return c.rescale(prod, c.env.C), nil
 		}
 	}
 	return Dec{}, &ErrCalc{fmt.Sprintf("no exchange rate from %s to %s", s.ItemCurrency, c.env.Currency)}
